@@ -75,6 +75,7 @@ package mcp
 //@   track jsonrpc2.Async as async
 //@   track validateRequestMeta as vrm
 //@   track handleReceive as dispatch
+//@   track updateState as upd inline
 //@   snapshot afterMeta after call validateRequestMeta
 //@   ghost vm := callResult(vrm, 1, 0)
 //@   ghost metaErr := callResult(vrm, 1, 1)
@@ -101,6 +102,11 @@ package mcp
 //@   ensures @discover-without-meta metaErr == nil && !isNew && method == methodDiscover ==> calls(dispatch) == 0
 //@        && typeIs(result.1, *jsonrpc.Error) && result.1.(*jsonrpc.Error).Code == jsonrpc.CodeMethodNotFound
 //@   ensures @not-initialized metaErr == nil && !isNew && !init && !preInitMethod(method) && method != methodDiscover ==> calls(dispatch) == 0 && result.1 != nil
+// A request that is turned away at the gate leaves the session as it was: only a request that goes on to its handler
+// may record the per-request client description (a rejected request that marked the session initialized would open
+// the gate for everything after it).
+//@   ensures @a-rejected-request-leaves-the-session-state-alone calls(dispatch) == 0 ==> calls(upd) == 0
+//@   ensures @only-an-uninitialized-new-protocol-request-records-its-metadata calls(upd) <= 1 && (calls(upd) == 1 ==> !init && isNew && !removedIn2026(method) && method != methodDiscover)
 
 // A server connection is told about session-state changes; the only implementation records the protocol version.
 //@ func (serverConnection).sessionUpdated
